@@ -55,6 +55,18 @@ CLAIMED = {
              "six-vector (through the exponential), shapes and accessors are compared with the spec state. Bounded "
              "exhaustive + random; float meaning of terms comes from RefEval, not from TLC.",
         note="TLC for structure; RefEval (numpy/scipy) for values; 5e-6 tolerance as stated in the property"),
+    "C01": dict(
+        level="model_checking", design="3/C01",
+        technique="TLA+ specs QSE3.tla/GroupLaws.tla: TLC checks inverse/adjoint/conjugation laws in exact integer "
+                  "arithmetic on a quaternion palette and exports exact values (incl. logarithm branch) that the code's "
+                  "primitives must reproduce; float regions (|w|->0, |w|->pi, |v|<=1e3) as law traces decided by TLC "
+                  "against LawTrace.tla with coverage obligations",
+        text="On the exact palette TLC is the oracle: every transform's inverse, adjoint, Ad(T)V, rotation and log branch "
+             "are computed exactly and compared with the compiled primitives (one test per log branch/pivot). Over the "
+             "continuum the laws are evaluated on the real code and TLC decides thresholds and that every law x region "
+             "obligation was exercised. Sampling, not proof, off the palette.",
+        note="TLC exact arithmetic; RefEval (numpy) for series/Rodrigues values; tolerances as in the property (5e-6 for "
+             "laws touched by the cut-off, relative to max(1,|v|,|p|); 1e-9 relative for algebraic laws)"),
 }
 
 NOT_YET = "check not built yet in this round (planned: see DESIGN.md section 3)"
